@@ -163,8 +163,14 @@ pub struct Fams {
     pub rich: bool,
 }
 
-pub fn tiny_set(quick: bool) -> Vec<Named> {
-    let (l2, l3, l4) = if quick { (7, 4, 3) } else { (12, 8, 6) };
+/// all strings over 2 / 3 / 4 symbols up to a length per alphabet; `depth` 0: quick tier, 1: thorough tier of the
+/// checks that share the families, 2: thorough tier of C01 (the deepest)
+pub fn tiny_set_depth(depth: u8) -> Vec<Named> {
+    let (l2, l3, l4) = match depth {
+        0 => (7, 4, 3),
+        1 => (10, 6, 5),
+        _ => (12, 8, 6),
+    };
     let mut v = vec![];
     let mut seen = std::collections::HashSet::new();
     for (alpha, l) in [(&b"ab"[..], l2), (&b"abc"[..], l3), (&b"a\x00\xffz"[..], l4)] {
@@ -178,6 +184,11 @@ pub fn tiny_set(quick: bool) -> Vec<Named> {
 }
 
 pub fn build(quick: bool) -> Fams {
+    build_depth(quick, if quick { 0 } else { 1 })
+}
+
+/// `tiny_depth`: see tiny_set_depth
+pub fn build_depth(quick: bool, tiny_depth: u8) -> Fams {
     let mut tiny_cfgs = vec![];
     for wrap in Wrap::ALL {
         for (wbits, mem_level) in [(9, 1), (15, 8)] {
@@ -299,6 +310,14 @@ pub fn build(quick: bool) -> Fams {
             }
         }
     }
+    // nice_length of every level (8, 16, 32, 128, 258) +- 1: a near candidate of exactly that many bytes and a longer, older one
+    for k in [7usize, 8, 9, 15, 16, 17, 31, 32, 33, 127, 128, 129, 255, 256, 257] {
+        for far in [k + 1, 258] {
+            if far > k && far <= 258 {
+                thresh_inputs.push(Named { name: format!("nice_threshold(near={k},far={far})"), data: nice_threshold(k, far) });
+            }
+        }
+    }
     let mut thresh_cfgs = vec![];
     for level in 1..=9 {
         thresh_cfgs.push(DCfg { level, strategy: 0, wbits: 15, mem_level: 8, wrap: Wrap::Raw });
@@ -306,7 +325,7 @@ pub fn build(quick: bool) -> Fams {
     for level in [4, 6, 7, 9] {
         thresh_cfgs.push(DCfg { level, strategy: 1, wbits: 15, mem_level: 8, wrap: Wrap::Zlib });
     }
-    Fams { tiny_inputs: tiny_set(quick), tiny_cfgs, shape_sets, big_cfgs, big_inputs, sweep_cfgs, sweep_inputs, align_cfgs, align_inputs, thresh_cfgs, thresh_inputs, rich: !quick }
+    Fams { tiny_inputs: tiny_set_depth(tiny_depth), tiny_cfgs, shape_sets, big_cfgs, big_inputs, sweep_cfgs, sweep_inputs, align_cfgs, align_inputs, thresh_cfgs, thresh_inputs, rich: !quick }
 }
 
 fn level_class(level: i32) -> i32 {
